@@ -59,6 +59,20 @@ def Tree.preimages (H : Bytes → Bytes) : Tree → List Bytes
   | .leaf m => [m]
   | .node l r => sortPair (l.root H) (r.root H) :: (l.preimages H ++ r.preimages H)
 
+/-- preimages of the inner nodes only: every one is the concatenation of two digests (`2·n` bytes) -/
+def Tree.inner (H : Bytes → Bytes) : Tree → List Bytes
+  | .leaf _ => []
+  | .node l r => sortPair (l.root H) (r.root H) :: (l.inner H ++ r.inner H)
+
+/-- the strings the `try_fold` of `query_has_member` hashes, in order: `sortPair acc p` for every proof element -/
+def foldPreimages (H : Bytes → Bytes) : Bytes → List Bytes → List Bytes
+  | _, [] => []
+  | h0, p :: ps => sortPair h0 p :: foldPreimages H (H (sortPair h0 p)) ps
+
+/-- everything `query_has_member` hashes when asked about `(member, decoded proof)`: the member string, then the fold -/
+def queryPreimages (H : Bytes → Bytes) (m : Bytes) (ps : List Bytes) : List Bytes :=
+  m :: foldPreimages H (H m) ps
+
 inductive Dir | L | R
 deriving Repr, DecidableEq
 
